@@ -35,7 +35,7 @@ def functions():
 
 def configs(tier):
     out = []
-    gl = list(graphs.G3) + (['P4', 'S3', 'C4', 'paw', 'K4'] if tier == 'thorough' else [])
+    gl = list(graphs.G3) + ['K2loop', 'P3loop'] + (['P4', 'S3', 'C4', 'paw', 'K4'] if tier == 'thorough' else [])
     for g in gl:
         n, edges = graphs.ALL[g]
         if tier == 'quick':
